@@ -345,7 +345,8 @@ def recover(inp, outp, verbose=0, partial=False, force=False, pack=None):
 
         nrec = 0
         try:
-            for r in txn:
+            records = iter(txn)
+            for r in records:
                 if verbose > 1:
                     if r.data is None:
                         l_ = "bp"
@@ -356,6 +357,9 @@ def recover(inp, outp, verbose=0, partial=False, force=False, pack=None):
                 ofs.restore(r.oid, r.tid, r.data, '', r.data_txn,
                             txn)
                 nrec += 1
+            if getattr(records, '_pos', None) != getattr(txn, '_tend', None):
+                # the record iterator stopped early at a bad data record
+                error("data records do not fill transaction at %s", pos)
         except (KeyboardInterrupt, SystemExit):
             raise
         except Exception as err:
